@@ -1,6 +1,6 @@
 // package-dir: pkg/engine
 // property: C08
-// bound: two vectors a, b in one Euclidean float32 index; the metadata field "f" of each is one of
+// bound: two vectors a, b (and a third, c, stored without any metadata) in one Euclidean float32 index; the metadata field "f" of each is one of
 //        {absent, "red", "blue", 5, 7, true, false, ["red"], ["red","blue"], int 5, "salt AND pepper"} (121 states: values as a
 //        JSON client sends them, numbers being float64, plus the Go int 5 an embedding program may pass); 14 single-comparison filters over f (=, != on strings,
 //        numbers and booleans; <, <=, >, >= on numbers) and 8 compound ones (AND / OR in both cases, precedence,
@@ -148,6 +148,7 @@ func TestGovcBounded(t *testing.T) {
 		}
 		e.VAdd("idx", "a", []float32{1, 0}, meta(va))
 		e.VAdd("idx", "b", []float32{0, 1}, meta(vb))
+		e.VAdd("idx", "c", []float32{1, 1}, nil) // a vector without any metadata: matched by != only
 		return e
 	}
 	modes := []string{"log replay", "snapshot restore", "compression"}
@@ -173,14 +174,17 @@ func TestGovcBounded(t *testing.T) {
 				if f.eval(vb) {
 					want = append(want, "b")
 				}
-				if len(want) == 1 {
+				if f.eval(nil) {
+					want = append(want, "c")
+				}
+				if len(want) == 1 || len(want) == 2 {
 					nontrivial++
 				}
 				got := ask(e, f.text)
 				live[f.text] = got
 				if !same(got, want) {
 					report("live answer differs from the documented semantics", va, vb, f.text, want, got)
-				} else if samples < 3 && len(want) == 1 && n%17 == 3 {
+				} else if samples < 3 && len(want) >= 1 && len(want) <= 2 && n%17 == 3 {
 					samples++
 					fmt.Printf("GOVC-BOUNDED-SAMPLE a.f=%v b.f=%v filter %q -> %v (live, after log replay, after snapshot restore, after compression)\n", va, vb, f.text, got)
 				}
